@@ -42,6 +42,9 @@ func init() {
 		"(*sync.Once).Do":             intrOnceDo,
 		"strconv.Quote":               intrStrconvQuote,
 		"errors.New":                  intrErrorsNew,
+		"errors.Is":                   intrErrorsIs,
+		"strings.Count":               intrStringsCount,
+		"strings.Contains":            intrStringsContains,
 		"unicode/utf8.DecodeRune":     intrDecodeRune,
 		"unicode/utf8.EncodeRune":     intrEncodeRune,
 		"unicode/utf16.IsSurrogate":   intrIsSurrogate,
@@ -223,6 +226,26 @@ func intrEncodeRune(f *Frame, callee *ssa.Function, args []Val, pc string, st *S
 	vc.assert(fmt.Sprintf("(forall ((i Int)) (! (and (<= 0 (select %s i)) (<= (select %s i) 255)) :pattern ((select %s i))))", na, na, na))
 	st.heap[cn] = vc.define("h", vc.compSorts[cn], fmt.Sprintf("(store %s (arr %s) %s)", E, p, na))
 	return Val{T: n, Typ: callee.Signature.Results().At(0).Type()}, pc
+}
+
+// errors.Is: assumed to have no effect and not to panic; its verdict is an arbitrary boolean (the error types of this
+// module define no Is method, so it is identity/unwrap comparison; nothing is relied upon except the absence of effects)
+func intrErrorsIs(f *Frame, callee *ssa.Function, args []Val, pc string, st *State, ins ssa.Value) (Val, string) {
+	return Val{T: f.vc.freshConst("errorsIs", "Bool"), Typ: callee.Signature.Results().At(0).Type()}, pc
+}
+
+// strings.Count(s, sub): the uninterpreted strcount(s, sub) >= 0; no effect, no panic
+func intrStringsCount(f *Frame, callee *ssa.Function, args []Val, pc string, st *State, ins ssa.Value) (Val, string) {
+	n := f.vc.define("strcount", "Int", fmt.Sprintf("(strcount %s %s)", args[0].T, args[1].T))
+	f.vc.assert(fmt.Sprintf("(>= %s 0)", n))
+	return Val{T: n, Typ: callee.Signature.Results().At(0).Type()}, pc
+}
+
+// strings.Contains(s, sub) == (strings.Count(s, sub) > 0) for a non-empty sub (an arbitrary boolean otherwise)
+func intrStringsContains(f *Frame, callee *ssa.Function, args []Val, pc string, st *State, ins ssa.Value) (Val, string) {
+	b := f.vc.freshConst("contains", "Bool")
+	f.vc.assert(fmt.Sprintf("(=> (> (slen %s) 0) (= %s (> (strcount %s %s) 0)))", args[1].T, b, args[0].T, args[1].T))
+	return Val{T: b, Typ: callee.Signature.Results().At(0).Type()}, pc
 }
 
 func intrIsSurrogate(f *Frame, callee *ssa.Function, args []Val, pc string, st *State, ins ssa.Value) (Val, string) {
